@@ -187,7 +187,7 @@ def C(*names):
 
 
 PROPS = {
-    "C01": simprop(scenarios.c01, ["C01", "C06"], {"data": 50, "acknack": 20, "take": 20, "final": 20, "faults": 10}),
+    "C01": None,  # defined below (simprop + binding self test in the thorough tier)
     "C02": simprop(scenarios.c02, ["C01", "C02", "C06"], {"data": 50, "take": 20, "faults": 10}),
     "C05": simprop(scenarios.c05, ["C01", "C05", "C06"], {"frag": 100, "take": 20, "final": 20, "faults": 5}),
     "C03": simprop(scenarios.c03, ["C01", "C03", "C06"], {"waitacks": 30, "data": 50, "faults": 10}),
@@ -506,6 +506,24 @@ def c15_replay(prop, path):
 
 PROPS["C15"] = {"run": c15_run, "replay": c15_replay}
 PROPS["C14"] = {"run": c14_run, "replay": c14_replay}
+
+def _c01():
+    base = simprop(scenarios.c01, ["C01", "C06"], {"data": 50, "acknack": 20, "take": 20, "final": 20, "faults": 10})
+
+    def run(p, tier, seed):
+        res = base["run"](p, tier, seed)
+        if tier == "thorough":
+            wd = vlib.workdir(p + ".selftest")
+            sample = [s for s in scenarios.c01("quick", seed) if s["family"] == "rule"][:12]
+            res["coverage"]["binding_self_test"] = {
+                "what": "12 recorded traces are accepted; each of four single-field corruptions of the same trace is rejected by Trace_Rtps.tla",
+                "rules_raised_by_corruption": simcheck.binding_selftest(wd, sample)}
+        return res
+    return {"run": run, "replay": base["replay"]}
+
+
+PROPS["C01"] = _c01()
+
 
 def _c34():
     g = graphprop("Channels", "Channels", ["MC_Channels_oneshot.cfg", "MC_Channels_mpsc.cfg", "MC_Channels_notification.cfg"],
